@@ -32,6 +32,7 @@ func init() {
 			ruleNoSharingByStructCopy(c, "R8")
 			ruleMemoListsAreCopied(c, "R9")
 			ruleConstructorsOwnTheirLists(c, "R10")
+			ruleEntryConditionBelongsToTheGroup(c, "R11")
 		},
 	})
 }
